@@ -26,10 +26,14 @@ FAMS = {
     "time": ["s", "yr", "day", "kyr", "Myr"],
     "velocity": ["cm/s", "km/s", "au/yr", "pc/Myr"],
     "density": ["g/cm**3", "kg/m**3", "M_sun/pc**3", "M_earth/R_earth**3"],
-    "energy": ["erg", "J", "L_sun*s", "g*cm**2/s**2"],
+    "energy": ["erg", "J", "eV", "keV", "L_sun*s", "g*cm**2/s**2"],
     "luminosity": ["erg/s", "W", "L_sun", "L_bol0", "solar_luminosity", "L_sol"],
     "radiation": ["erg/cm**3/K**4", "ar", "radiation_constant", "J/m**3/K**4"],
     "dimensionless": ["dimensionless", "cm/m"],
+    # pint ships optional "contexts" that make temperature <-> energy (boltzmann) or length <-> frequency <-> energy
+    # (spectroscopy) interconvertible; osyris must keep them distinct dimensions
+    "temperature": ["K", "mK"],
+    "frequency": ["Hz", "1/s", "1/yr"],
 }
 QUICK = {k: v[: (6 if k in ("length", "mass", "luminosity") else 4)] for k, v in FAMS.items()}
 
@@ -48,6 +52,8 @@ def cases(thorough):
         for u1, u2, u3 in itertools.product(us[:4], us, us[-3:]):
             yield {"block": "chain", "u1": u1, "u2": u2, "u3": u3}
     names = list(fams)
+    dims = {f: tuple(_arr.uinfo(fams[f][0])[1]) for f in names}
+    assert len(set(dims.values())) == len(names), "harness: two unit families share a dimension"
     for f1, f2 in itertools.permutations(names, 2):
         for u1 in fams[f1][:2]:
             for u2 in fams[f2][-2:]:
